@@ -741,6 +741,69 @@ CHECKS["C10"] = Spec(
     rule="see case_rule",
     extra=_leg_check,
 )
+def _race_check(ctx):
+    """C16: regenerate the lock table from /repo, discharge table_ok in Coq; run the mixed workload under the race detector."""
+    prop, tier, wd, rng = ctx["prop"], ctx["tier"], ctx["wd"], ctx["rng"]
+    C.go_build(["skel"])
+    gen = os.path.join(C.BUILD, "gen"); os.makedirs(gen, exist_ok=True)
+    outv, outj = os.path.join(gen, "LockTableGen.v"), os.path.join(gen, "locktable.json")
+    p = C.sh([os.path.join(C.BIN, "skel"), "locktable", C.REPO, os.path.join(C.HARNESS, "cmd", "skel", "exempt.txt"), outv, outj], check=False)
+    if p.returncode != 0:
+        raise C.CheckError("skel failed: " + p.stdout[-2000:])
+    tbl = json.load(open(outj))
+    pc = C.sh(["timeout", "600", "coqc", "-Q", os.path.join(C.COQ, "theories"), "STH", "-Q", gen, "STHGen", outv], cwd=gen, check=False)
+    table_ok = pc.returncode == 0
+    viol = []
+    # the race detector on the mixed workload (validation of the translator on every run; the search when table_ok fails)
+    C.go_build(["racedrive"], race=True)
+    seeds = [ctx["seed"] * 10 + i for i in range(2 if tier == "quick" and table_ok else (6 if tier == "quick" else 40))]
+    ms = 1500 if tier == "quick" else 4000
+    from concurrent.futures import ThreadPoolExecutor
+    def one(sd):
+        r = subprocess.run([os.path.join(C.BIN, "racedrive-race"), str(sd), str(ms)], env=dict(os.environ, GOLOG_LOG_LEVEL="fatal", GORACE="halt_on_error=0 exitcode=66"),
+                           stdout=subprocess.PIPE, stderr=subprocess.STDOUT, text=True, timeout=900)
+        return sd, r.returncode, r.stdout
+    with ThreadPoolExecutor(4) as ex:
+        outs = list(ex.map(one, seeds))
+    races, nops = [], 0
+    for sd, rc, out in outs:
+        m = re.search(r"ops: (\d+)", out)
+        nops += int(m.group(1)) if m else 0
+        if "WARNING: DATA RACE" in out:
+            rep = out[out.index("WARNING: DATA RACE"):]
+            rep = rep[:rep.find("==================", 10) if "==================" in rep[10:] else 3000]
+            frames = [l.strip() for l in rep.split("\n") if "go-storethehash/store" in l and "(" in l]
+            races.append((sd, frames[:2], rep[:3500]))
+        elif rc not in (0, 66):
+            races.append((sd, ["workload crashed (exit %d)" % rc], out[-2500:]))
+    if races:
+        sd, frames, rep = races[0]
+        rp = C.save_replay(prop, "race-%d.txt" % sd, "C16 fails on the implementation: the race detector reports a data race (or the workload crashed) in the mixed workload, seed %d\n"
+                           "replay: cd /verif && GORACE=halt_on_error=0 build/bin/racedrive-race %d %d\nlock table: inconsistent fields %s\n\n%s\n" % (sd, sd, ms, tbl["inconsistent"], rep))
+        viol.append(("data race: %s" % " vs ".join(frames), rp, True))
+    elif not table_ok:
+        rp = C.save_replay(prop, "locktable.txt", "regenerated proof obligation broken: Lemma table_ok (build/gen/LockTableGen.v) does not check.\n"
+                           "fields whose accesses no longer share their guard locks: %s\nrows:\n%s\ncoqc said:\n%s\n"
+                           "the race detector found no race in %d runs of the mixed workload\n" %
+                           (tbl["inconsistent"], "\n".join("  %s %s in %s holding %s (%s)" % (r["Kind"], r["Field"], r["Fn"], r["Locks"], r["Pos"].split("/")[-1]) for r in tbl["rows"] if r["Field"] in tbl["inconsistent"]),
+                            pc.stdout[-800:], len(seeds)))
+        viol.append(("lock table: accesses of %s are no longer covered by their guard locks" % tbl["inconsistent"], rp, False))
+    return viol, {"evaluations": len(seeds) + 1, "distinct_nontrivial": len(tbl["fields"]), "lock_table_fields": len(tbl["fields"]), "lock_table_rows": len(tbl["rows"]),
+                  "lock_table_consistent": table_ok, "guard_sets": tbl["guards"], "exemptions": tbl["exempt"], "race_detector_runs": len(seeds), "race_detector_ops": nops,
+                  "regenerated_obligation": "table_ok : table_consistent generated_guard generated_table = true (vm_compute) - " + ("discharged" if table_ok else "FAILED"),
+                  "samples": [{"row": r} for r in tbl["rows"][:3]],
+                  "table_rule": "cmd/skel walks every method of the structs that own a mutex (go/ast): per receiver-reachable field access, the locks held (Lock/RLock add, Unlock removes, defer keeps, "
+                                "branches restore, unexported helpers inherit the intersection over their call sites); fields never written outside constructors are immutable; the guard set of a field = "
+                                "locks every write holds exclusively, every read must hold one of them; exemptions are listed with reasons; the race detector runs the mixed workload (4 writers/readers, "
+                                "Flush, storage sizes, cache resizing, both collectors, rate-limited path, background flusher) as validation"}
+
+CHECKS["C16"] = Spec(
+    prop_file="C16.v",
+    weights=None,
+    tools=["witness"],
+    rule="see table_rule",
+    extra=_race_check,
+)
 CHECKS["C15"] = Spec(
     prop_file="C15.v",
     weights=None,
@@ -1094,6 +1157,9 @@ def run_check(prop, tier, seed, replay, t0):
                op_histogram=dict(opcount), put_value_length_histogram={str(k): v for k, v in sorted(vlens.items())},
                non_ok_results=dict(errs), observations_compared=list(spec.keep), coq_replay_s=round(coq_s, 1))
     if extra_cov:
+        if "regenerated_obligation" in extra_cov:
+            cov["obligations"] += 1
+            cov["discharged"] += 1 if extra_cov.get("lock_table_consistent", extra_cov.get("skeleton_ok")) else 0
         cov["evaluations"] += extra_cov.pop("evaluations", 0)
         cov["distinct_nontrivial"] += extra_cov.pop("distinct_nontrivial", 0)
         cov["traces_validated_against_impl"] += extra_cov.pop("traces_validated_against_impl", 0)
